@@ -55,3 +55,12 @@ Proof.
   destruct (route c (st_bpm sync) want secs [] (map LUnparsable w1 ++ map LUnparsable w2)) as [[tracks logs]|e]; reflexivity.
 Qed.
 Print Assumptions leaf_from_file_ok.
+
+(** The capstone of C06, stated of Chart.from_file as translated from the current source: a file rendered from well-formed
+    sections (LF or CRLF) is parsed as [from_secs] of exactly those sections. *)
+From CP Require Import Spec.ChartSpec Spec.Render Properties.C06.
+Corollary render_file_on_translated_source :
+  forall c secs nl want, cfg_ok_chart c = true -> wf_secs secs -> nl = NL_LF \/ nl = NL_CRLF ->
+    Forall (fun s => no_breaks (tbl c) (fst s) /\ Forall (no_breaks (tbl c)) (snd s)) secs ->
+    leaf_from_file c (join nl (lines_of secs)) want = from_secs c secs want.
+Proof. intros c secs nl want H1 H2 H3 H4. rewrite leaf_from_file_ok. exact (render_file c secs nl want H1 H2 H3 H4). Qed.
